@@ -291,8 +291,8 @@ theorem escape_after_literal_contexts :
 
 /-- **`codespan_content_literal`**, for every line that continues with a code span and every
 state of the bracket stack: a backtick string of `n` backticks, a content in which every
-backtick string is shorter than `n` (so that the scanner's and CommonMark's closing string are
-the same: `codeSpanContent_of_stringsBelow`), and the closing string of `n` backticks are passed
+backtick string is shorter than `n` (a special case of `codespan_content_literal_full` below,
+kept under its name: `codeSpanContent_of_stringsBelow`), and the closing string of `n` backticks are passed
 over as a whole — no destination is collected inside, and the scan goes on after the closing
 string in the state it had before the opening one. Nothing is assumed about backslashes: the
 content is any bytes, the right-hand side mentions only its length. In particular a content that
@@ -302,24 +302,14 @@ theorem codespan_content_literal (n : Nat) (body rest : Bytes) (depth pos : Nat)
     (hs : stringsBelow n body = true) (hr : rest.head? ≠ some 96) :
     scanInline 0 depth 0 pos (ticks n ++ (body ++ (ticks n ++ rest))) =
       scanInline 0 depth 0 (pos + (n + body.length + n)) rest :=
-  scanInline_codespan n body rest depth pos hn hb hh hl hs hr
+  scanInline_codespan n body rest depth pos hn hb hh hl (noStringOf_of_stringsBelow n body false hs) hr
 
 /-- a content whose backtick strings are all shorter than `n` is a CommonMark code-span content
 for an opening string of `n` -/
 theorem codeSpanContent_of_stringsBelow (n : Nat) (body : Bytes) (hb : body ≠ [])
     (hh : body.head? ≠ some 96) (hl : body.getLast? ≠ some 96) (hs : stringsBelow n body = true) :
-    CodeSpanContent n body := by
-  refine ⟨hb, hh, hl, ?_⟩
-  have : ∀ (l : Bytes) (pt : Bool), stringsBelow n l = true → noStringOf n pt l = true := by
-    intro l
-    induction l with
-    | nil => intro _ _; rfl
-    | cons c r ih =>
-      intro pt h
-      simp only [stringsBelow, Bool.and_eq_true, decide_eq_true_eq] at h
-      simp only [noStringOf, Bool.and_eq_true, Bool.or_eq_true, bne_iff_ne, ne_eq]
-      exact ⟨Or.inr (by omega), ih _ h.2⟩
-  exact this body false hs
+    CodeSpanContent n body :=
+  ⟨hb, hh, hl, noStringOf_of_stringsBelow n body false hs⟩
 
 /-- the state after a code span does not depend on what is inside it: two contents of the same
 length, with backslashes or without, leave the scan in the same place -/
@@ -342,18 +332,19 @@ def CodespanContentLiteralFull : Prop :=
     scanInline 0 depth 0 pos (ticks n ++ (body ++ (ticks n ++ rest))) =
       scanInline 0 depth 0 (pos + (n + body.length + n)) rest
 
-/-- false of the code today: inside a code span of `n` the loop advances one byte at a time over
-a longer backtick string and takes its last `n` backticks for the closing string. In
-`` `a``b` [x](y) `` the code span ends, for the scanner, inside the double backtick, the last
-backtick opens a new one and the link is not seen (with the pieces the other way round,
-`` ` ``[](a)` ``, link syntax inside the code span is rewritten) — known finding
-`ld-code-span-closed-inside-longer-run` -/
-theorem not_CodespanContentLiteralFull : ¬ CodespanContentLiteralFull := by
-  intro h
-  have := h 1 [97, 96, 96, 98] [32, 91, 120, 93, 40, 121, 41] 0 0 (by decide)
-    ⟨by decide, by decide, by decide, by decide⟩ (by decide)
-  revert this
-  decide
+/-- **`codespan_content_literal` at full strength** (since fix 8b404d9: inside a code span a
+backtick string is passed over as a whole, and one of another length is content): every
+CommonMark code-span content — backtick strings longer than the delimiters included — is passed
+over as a whole, no destination is collected inside, and the scan goes on after the closing
+string in the state it had before the opening one. Before the fix the loop advanced one byte at
+a time over a longer backtick string and took its last `n` backticks for the closing string
+(`` `a``b` [x](y) ``: the link was not seen; `` ` ``[](a)` ``: link syntax inside the code span
+was rewritten — finding `ld-code-span-closed-inside-longer-run`, cured), and this statement was
+refuted by the first of those lines. -/
+theorem codespan_content_literal_full : CodespanContentLiteralFull := by
+  intro n body rest depth pos hn hc hr
+  obtain ⟨hb, hh, hl, hs⟩ := hc
+  exact scanInline_codespan n body rest depth pos hn hb hh hl hs hr
 
 -- non-vacuity: `` `C:\dir\` `` and `` ``a\`b`` `` are code-span contents below their delimiters;
 -- the link after `` `\` `` is found where it stands, link syntax inside `` `[a](b)\` `` is not
@@ -363,6 +354,11 @@ example : stringsBelow 2 [97, bsl, 96, 98] = true := by decide
 example : scanInlineLinks (ticks 1 ++ [bsl] ++ ticks 1 ++ [32, 91, 120, 93, 40, 121, 41]) = some [(8, 9)] := by decide
 example : scanInlineLinks (ticks 1 ++ [91, 97, 93, 40, 98, 41, bsl] ++ ticks 1) = some [] := by decide
 example : scanInlineLinks [bsl, 96, 91, 120, 93, 40, 121, 41, 96] = some [(6, 7)] := by decide
+-- the two lines of the cured finding: `` `a``b` [x](y) `` — the link after the code span is found;
+-- `` ` ``[](a)` `` — the link syntax inside the code span is not
+example : CodeSpanContent 1 [97, 96, 96, 98] := ⟨by decide, by decide, by decide, by decide⟩
+example : scanInlineLinks ([96, 97, 96, 96, 98, 96] ++ [32, 91, 120, 93, 40, 121, 41]) = some [(11, 12)] := by decide
+example : scanInlineLinks [96, 32, 96, 96, 91, 93, 40, 97, 41, 96] = some [] := by decide
 
 /-! ### which destinations are rewritten, with net/url as a parameter -/
 
